@@ -29,7 +29,7 @@ PLAN = {
     "thorough": {"shards": 8, "shard_timeout": 3600, "case_timeout": 90, "seq": 600000, "runs": 60000, "par": 6000, "max_case_timeouts": 10},
 }
 THRESHOLDS = {
-    "quick": {"individuals_checked": 5000, "sequential_calls": 600, "multi_objective_calls": 200, "representations": 300, "shared_problem_cases": 100, "runs": 70, "parallel_calls": 40, "parallel_individuals": 150, "set:completion_orders": 5, "parallel_with_evaluated_members": 10, "parallel_batches_with_duplicates": 8, "runs_with_selection_after_variation": 30, "multi_returns:reused-list": 50, "multi_returns:tuple": 50, "parallel_batches_of_never_mapped_individuals": 10, "parallel_never_mapped:dsge": 3},
+    "quick": {"individuals_checked": 5000, "sequential_calls": 600, "multi_objective_calls": 200, "representations": 300, "shared_problem_cases": 100, "runs": 70, "parallel_calls": 40, "parallel_individuals": 150, "set:completion_orders": 5, "parallel_with_evaluated_members": 10, "parallel_batches_with_duplicates": 8, "runs_with_selection_after_variation": 30, "multi_returns:reused-list": 50, "multi_returns:tuple": 50, "parallel_batches_of_never_mapped_individuals": 10, "parallel_never_mapped:dsge": 3, "problem_churn_cases": 25, "rounds_on_a_reused_problem_address": 20},
     "thorough": {"individuals_checked": 120000, "parallel_calls": 600, "set:completion_orders": 40},
 }
 
@@ -103,6 +103,8 @@ def gen_cases(tier, seed):
         yield {"kind": "seq", "n": rng.choice([1, 1, 2, 3, 5, 8]), "pre": rng.random(), "dups": rng.random() < 0.3, "multi": rng.random() < 0.4, "minimize": rng.random() < 0.5, "mins": [rng.random() < 0.5 for _ in range(3)], "bool_min": rng.random() < 0.3, "second": rng.random() < 0.3, "returns": rng.choice(["fresh-list", "reused-list", "tuple"]), "repr": rng.choice(["tree", "ge", "sge"]), "seed": rng.randrange(10**6)}
     for i in range(plan["runs"]):
         yield {"kind": "run", "alg": rng.choice(["gp", "gp", "hc"]), "step": rng.choice(["default", "default", "mut-then-tournament", "mut-then-elitism", "mut-then-evaluate"]), "pop": rng.choice([2, 3, 5, 8]), "budget": rng.randint(5, 40), "multi": rng.random() < 0.3, "returns": rng.choice(["fresh-list", "reused-list", "tuple"]), "minimize": rng.random() < 0.5, "repr": rng.choice(["tree", "ge"]), "seed": rng.randrange(10**6)}
+    for i in range(max(30, plan["seq"] // 20)):
+        yield {"kind": "churn", "n": rng.choice([2, 3, 5, 8]), "rounds": rng.choice([3, 4, 6]), "repr": rng.choice(["tree", "ge"]), "seed": rng.randrange(10**6)}
     for i in range(plan["par"]):
         yield {"kind": "par", "n": rng.choice([1, 2, 3, 4, 6, 8]), "pre": rng.choice([0.0, 0.0, 0.3, 0.6]), "dups": rng.random() < 0.4, "multi": rng.random() < 0.3, "minimize": rng.random() < 0.5, "repr": rng.choice(["tree", "ge"]), "seed": rng.randrange(10**6)}
         if rng.random() < 0.5:
@@ -155,7 +157,69 @@ def check_individual(case, mins, ind, prob, rec, wit, where):
         rec.violation(f"aggregate-wrong:{'multi' if case['multi'] else 'single'}:{where}", dict(wit, recorded=f.maximizing_aggregate, expected=agg, components=comps, minimize=mins if case["multi"] else case["minimize"]))
 
 
+def run_churn(case, rec):
+    """One population, a succession of short-lived problems (a helper that builds a problem, scores the shared population
+    and returns): each problem is freed before the next one is created, so the next one usually gets its ADDRESS.
+    Whatever an individual remembers about a dead problem must not answer for the new one."""
+    import gc
+
+    from geneticengine.evaluation.sequential import SequentialEvaluator
+    from geneticengine.problems import SingleObjectiveProblem
+
+    g, _ = evo.tiny()
+    src = workload.native(case["seed"])
+    rep = evo.make_rep(case["repr"], g, src)
+    inds = evo.individuals(rep, src, case["n"])
+    if len(inds) < case["n"]:
+        return
+    calls = [0]
+    shifts = [0.0, 100.0, 7.0, 100.0, 0.0, 31.0][: case["rounds"]]
+
+    def make(shift):
+        def f(p):
+            calls[0] += 1
+            return pure_single(p) + shift
+
+        return f
+
+    fns = [make(sh) for sh in shifts]  # created beforehand: nothing else is allocated between two problems
+    wit = {"n": case["n"], "rounds": case["rounds"], "repr": case["repr"]}
+    seen_ids = []
+    rec.count("problem_churn_cases")
+    for r, (fn, shift) in enumerate(zip(fns, shifts)):
+        minimize = r % 3 == 0
+        calls[0] = 0
+        prob = SingleObjectiveProblem(fn, minimize=minimize)
+        if id(prob) in seen_ids:
+            rec.count("rounds_on_a_reused_problem_address")
+        seen_ids.append(id(prob))
+        ev = SequentialEvaluator()
+        try:
+            ev.evaluate(prob, inds)
+            got = [(i.get_fitness(prob).fitness_components[0], i.get_fitness(prob).maximizing_aggregate) for i in inds]
+        except core.CaseTimeout:
+            raise
+        except BaseException as e:  # noqa
+            rec.violation(f"evaluate:raises:{type(e).__name__}@{core.exc_site(e)}", dict(wit, round=r, error=core.short(e)))
+            return
+        rec.count("churn_rounds")
+        rec.count("evaluations")
+        if calls[0] != len({id(i) for i in inds}) or ev.number_of_evaluations() != calls[0]:
+            rec.violation("fitness-computed-more-or-less-than-once:new-problem-after-a-freed-one", dict(wit, round=r, invocations=calls[0], counter=ev.number_of_evaluations(), individuals=len(inds), address_reused=id(prob) in seen_ids[:-1]))
+        for i, (comp, agg) in zip(inds, got):
+            rec.count("individuals_checked")
+            want = pure_single(i.get_phenotype()) + shift
+            if comp != want or agg != (-want if minimize else want):
+                rec.violation("recorded-fitness-differs-from-fitness-function:new-problem-after-a-freed-one", dict(wit, round=r, recorded=[comp, agg], expected=[want, -want if minimize else want], address_reused=id(prob) in seen_ids[:-1]))
+                break
+        del prob, ev, got
+        gc.collect()
+    rec.distinct_add(["churn", case["n"], case["rounds"], len(set(seen_ids))])
+
+
 def run_case(case, rec):
+    if case.get("kind") == "churn":
+        return run_churn(case, rec)
     if LOG_PATH["path"] and os.path.exists(LOG_PATH["path"]):
         os.unlink(LOG_PATH["path"])
     os.environ["GEV_C13_DELAY"] = "0"
